@@ -264,6 +264,28 @@ def gen_conc(rng, hash_reads_ok, cas_ok):
     return {"mode": "conc", "threads": threads}
 
 
+def lifetime_sweep(mode):
+    """deterministic: every operation that takes a lifetime x lifetime {0, SHORT} x prior state of the key
+    {absent, SHORT deadline, MID deadline, never}; then three clock steps (> MID) with reads after the first and the last"""
+    out = []
+    for ty, k in (("s", "s0"), ("l", "l0")):
+        for prior in ("absent", SHORT, MID, 0):
+            for ttl in (0, SHORT):
+                mk = (lambda t: {"op": "set", "k": k, "v": "a", "ttl": t}) if ty == "s" else \
+                     (lambda t: {"op": "setlist", "k": k, "v": ["a", "b"], "ttl": t})
+                rd = [{"op": "get", "k": k}, {"op": "exists", "k": k}] if ty == "s" else [{"op": "getlist", "k": k}, {"op": "exists", "k": k}]
+                opsets = [[mk(ttl)], [{"op": "setexp", "k": k, "ttl": ttl}]]
+                if ty == "s":
+                    opsets += [[{"op": "setnx", "k": k, "v": "b", "ttl": ttl}], [{"op": "cas", "k": k, "old": "a", "v": "b", "ttl": ttl}],
+                               [{"op": "cas", "k": k, "old": None, "v": "b", "ttl": ttl}]]
+                for second in opsets:
+                    ops = [] if prior == "absent" else [mk(prior)]
+                    ops += second + rd + [{"op": "tick", "d": TICK}] + rd + [{"op": "tick", "d": TICK}] * 2 + rd
+                    out.append({"mode": mode, "ops": ops, "scale": 1 if mode == "mem" else 100,
+                                "tol": MARGIN if mode == "mem" else 10 ** 12, "sweep": True})
+    return out
+
+
 def exhaustive_small(rng, depth):
     """all histories of the given length over a reduced one-key alphabet (thorough tier)"""
     k = "k0"
@@ -469,6 +491,7 @@ def run(ctx, only_cases=None):
         cases = load_corpus()
         cases += [{"mode": "mem", "ops": ops, "scale": 1, "tol": MARGIN, "witness": f} for f, ops in WITNESSES]
         n_mem, n_focus, n_redis, n_conc = (4000, 5000, 8000, 3000) if thorough else (400, 600, 900, 300)
+        cases += lifetime_sweep("mem") + lifetime_sweep("redis")
         cases += [gen_mem(rng) for _ in range(n_mem)]
         cases += [gen_focus(rng) for _ in range(n_focus)]
         if thorough:
